@@ -2988,7 +2988,10 @@ class PoissonGAM(GAM):
         )
 
         if exposure is not None:
-            exposure = np.array(exposure).astype('f')
+            exposure = np.array(exposure).astype('f').ravel()
+            exposure = check_array(
+                exposure, name='sample exposure', ndim=1, verbose=self.verbose
+            )
         else:
             exposure = np.ones(X.shape[0]).astype('f')
         check_lengths(X, exposure)
